@@ -10,7 +10,7 @@ use crate::engine::*;
 use crate::lacebox::{self, Load, RunSpec, Snapshot, Stop};
 use crate::proggen::{self, ProgSpec};
 use crate::refasm::Layout;
-use crate::refdbg::Cmd;
+use crate::refdbg::{Cmd, Loc, PLoc};
 
 pub struct C12;
 
@@ -22,6 +22,47 @@ pub struct Case {
     pub more: Vec<RawCmd>,
     /// 0: reset; exit   1: reset; reset; exit   2: reset; <more>; reset; exit   3: reset; quit (vs fresh run)
     pub variant: u8,
+    /// a "quiet" history: only stores that land outside the program (through R7, the one register
+    /// that is not zero at load, or through registers that are put back afterwards) and moves of the
+    /// PC that are undone - when `reset` is issued every register, the PC and the condition code
+    /// already equal their load-time values, and only memory differs
+    #[serde(default)]
+    pub quiet: bool,
+}
+
+/// Commands of a quiet history (see `Case::quiet`); `undo` collects what puts the CPU state back.
+fn quiet_cmds(p: &Prog, raw: &[RawCmd], undo: &mut Vec<Cmd>) -> Vec<Cmd> {
+    use crate::refasm::{Lit, Op, Operand, Stmt};
+    let mut out = Vec::new();
+    for r in raw {
+        match r.kind % 5 {
+            0 | 1 => {
+                // STR R7 -> [Rb + off]: registers are zero, so this writes x0000..x001F or xFFE0..xFFFF
+                let base = (r.a % 7) as u8;
+                let off = (r.c % 64) as i32 - 32;
+                out.push(Cmd::Eval(Stmt::new(Op::Str, &[7, base], Operand::Lit(Lit::Dec(off)))));
+            }
+            2 => {
+                // STI R7 through a pointer word of the program that points outside it
+                let l = ["P2", "P3", "PW0", "PW1", "PW2", "PW3"][r.b as usize % 6];
+                if p.symbols.iter().any(|(n, _)| n == l) {
+                    out.push(Cmd::Eval(Stmt::new(Op::Sti, &[7], Operand::Label(l.into()))));
+                }
+            }
+            3 => {
+                // a register is changed, used as a base, and put back
+                let reg = (r.a % 7) as u8;
+                out.push(Cmd::Move(PLoc::Reg(reg), value16(r.b, r.c)));
+                out.push(Cmd::Eval(Stmt::new(Op::Str, &[7, reg], Operand::Lit(Lit::Dec((r.c % 8) as i32)))));
+                undo.push(Cmd::Move(PLoc::Reg(reg), 0));
+            }
+            _ => {
+                out.push(Cmd::Goto(make_loc(p, 0, r.b, 0, LocMode::Code)));
+                undo.push(Cmd::Goto(Loc::Abs(p.orig, 0)));
+            }
+        }
+    }
+    out
 }
 
 const FUEL: u64 = 30_000;
@@ -63,8 +104,18 @@ pub fn judge_case(c: &Case) -> Obs {
     }
     // histories may contain inspection commands too (they change nothing, but run code of their own)
     let make = |r: &RawCmd| if r.kind & 0xC0 == 0xC0 { make_inspect_cmd(&p, r) } else { make_mutating_cmd(&p, r) };
-    let cmds: Vec<Cmd> = c.cmds.iter().map(make).collect();
-    let more: Vec<Cmd> = c.more.iter().map(make).collect();
+    let (cmds, more): (Vec<Cmd>, Vec<Cmd>) = if c.quiet {
+        obs.label("quiet-history");
+        let mut undo = Vec::new();
+        let mut v = quiet_cmds(&p, &c.cmds, &mut undo);
+        v.extend(undo);
+        let mut undo2 = Vec::new();
+        let mut w = quiet_cmds(&p, &c.more, &mut undo2);
+        w.extend(undo2);
+        (v, w)
+    } else {
+        (c.cmds.iter().map(make).collect(), c.more.iter().map(make).collect())
+    };
     let text = |v: &[Cmd]| v.iter().enumerate().map(|(i, c)| c.text(i as u8)).collect::<Vec<_>>().join("\n");
     let prefix = text(&cmds);
     let nl = |s: &str| if s.is_empty() { String::new() } else { format!("{s}\n") };
@@ -162,8 +213,13 @@ pub fn judge_case(c: &Case) -> Obs {
 }
 
 fn cases() -> impl Strategy<Value = Case> {
-    (proggen::prog_spec(20), prop::collection::vec(raw_cmd(), 1..12), prop::collection::vec(raw_cmd(), 0..6), 0u8..4)
-        .prop_map(|(spec, cmds, more, variant)| Case { spec, cmds, more, variant })
+    (proggen::prog_spec(20), prop::collection::vec(raw_cmd(), 1..12), prop::collection::vec(raw_cmd(), 0..6), 0u8..4, prop::bool::weighted(0.15))
+        .prop_map(|(spec, mut cmds, more, variant, quiet)| {
+            if quiet {
+                cmds.truncate(4);
+            }
+            Case { spec, cmds, more, variant, quiet }
+        })
 }
 
 impl Prop for C12 {
@@ -171,7 +227,7 @@ impl Prop for C12 {
         "C12"
     }
     fn rule(&self) -> &'static str {
-        "ProgGen programs (incl. self-modifying stores, stores below the origin, into the stack area and to 0xFFFF through pointers) x histories of 1-11 commands over {move to any register / any memory location, goto, eval of arbitrary instructions incl. stores and jumps, step, step into k, continue, break add/remove, reset, and (a quarter) the inspection commands print / registers / assembly / break list / help / echo}, half of them in the normal (non-minimal) output mode, followed by: reset | reset; reset | reset; <history>; reset | reset; quit. \
+        "ProgGen programs (incl. self-modifying stores, stores below the origin, into the stack area and to 0xFFFF through pointers) x histories of 1-11 commands over {move to any register / any memory location, goto, eval of arbitrary instructions incl. stores and jumps, step, step into k, continue, break add/remove, reset, and (a quarter) the inspection commands print / registers / assembly / break list / help / echo}, half of them in the normal (non-minimal) output mode; 15% are 'quiet' histories - stores through R7 or through registers that are put back, PC moves that are undone - after which every register, the PC and the condition code already equal their load-time values and only memory outside the program differs; followed by: reset | reset; reset | reset; <history>; reset | reset; quit. \
          Oracle: after the final reset the full snapshot (8 registers, PC, CC, 65,536 words) equals the snapshot taken right after loading; for `reset; quit` the exit status and final state equal a fresh plain run and the output equals (output of the history) ++ (output of a fresh run). \
          Non-trivial (measured on a twin session that ends before the reset): the history changed >= 1 memory word outside the stack page, >= 1 register and the PC. Distinct = hash(source, script)."
     }
